@@ -99,7 +99,7 @@ def slice_1d(ctx, n, lkind, order, sk, ek, step, bkind, via='getitem', prime=Fal
     return ctx.done(same(ctx, r[1], ref.select([pos])), ctx.observe(r[1]))
 
 
-def slice_2d(ctx, n, m, lkind, order, sk, ek, step, other, dim):
+def slice_2d(ctx, n, m, lkind, order, sk, ek, step, other, dim, via='getitem'):
     """2-D array: label slice in dimension `dim`, another index kind in the other dimension"""
     ls = ctx.labels(lkind, n, 'l', order=order if n >= 2 else None)
     lo = ctx.labels('i', m, 'o')
@@ -126,7 +126,27 @@ def slice_2d(ctx, n, m, lkind, order, sk, ek, step, other, dim):
         bits = [bool(b) for b in bits]
         oidx, osel = ctx.nparray(bits, kind='b'), [i for i, b in enumerate(bits) if b]
     idx = (sl, oidx) if dim == 0 else (oidx, sl)
-    r = ctx.call(lambda: a[idx])
+    name = dims[dim]
+    if via == 'getitem':
+        r = ctx.call(lambda: a[idx])
+    elif via == 'take-axis-name':
+        r = ctx.call(lambda: a.take(sl, axis=name))
+    elif via == 'take-axis-pos':
+        r = ctx.call(lambda: a.take(sl, axis=dim))
+    elif via == 'take-axis-neg':
+        r = ctx.call(lambda: a.take(sl, axis=dim - 2))
+    elif via == 'take-dict-name':
+        r = ctx.call(lambda: a.take({name: sl}))
+    elif via == 'take-dict-pos':
+        r = ctx.call(lambda: a.take({dim: sl}))
+    elif via == 'take-dict-neg':
+        r = ctx.call(lambda: a.take({dim - 2: sl}))
+    elif via == 'loc-dict':
+        r = ctx.call(lambda: a.loc[{name: sl}])
+    elif via == 'sel':
+        r = ctx.call(lambda: a.sel(**{name: sl}))
+    else:
+        raise ValueError(via)
     strict = lkind == 'U' or order == 'nonmono'
     if strict:
         pos = strict_positions(ctx, ls, start, stop, step)
@@ -266,6 +286,10 @@ def templates():
                     tier = 'quick' if step in (None, -1) else 'thorough'
                     add('2d-dim%d-%s-%s-%s-step%s' % (dim, other, lkind, order, step), 'slice_2d', tier, cost=3.0,
                         n=3, m=2, lkind=lkind, order=order, sk='sym', ek='sym', step=step, other=other, dim=dim)
+    # the sliced dimension designated through axis= / a {dimension: slice} mapping, by name, position and negative position
+    for via in ('take-axis-name', 'take-axis-pos', 'take-axis-neg', 'take-dict-name', 'take-dict-pos', 'take-dict-neg', 'loc-dict', 'sel'):
+        for dim in (0, 1):
+            add('2d-via-%s-dim%d' % (via, dim), 'slice_2d', cost=2.0, n=3, m=2, lkind='i', order='inc' if dim else 'dec', sk='sym', ek='sym', step=None if dim else -1, other='full', dim=dim, via=via)
     # 3-D / 4-D arrays with unequal sizes: slice next to scalars and lists in every arrangement
     import itertools
     for kinds in set(itertools.permutations(['slice', 'list', 'full'])) | set(itertools.permutations(['slice', 'list', 'scalar'])) | set(itertools.permutations(['slice', 'scalar', 'full'])):
